@@ -168,3 +168,44 @@ def replay_history(fam, rec, workroot: Path, tag):
     finally:
         shutil.rmtree(d, ignore_errors=True)
     return problems, stats
+
+
+def replay_option_cycle(fam, opts_seq, workroot: Path, tag, fault_at=None):
+    """Invoke the real CLI on one build directory with opts_seq[0], then opts_seq[1], ... (all sources present).  After
+    every invocation the font must equal a clean build with that option value.  fault_at = (index, output path): that
+    invocation runs with a failing step at `output`, must exit non-zero, and is followed by a fault-free rerun.
+    -> list of problem dicts (kinds: exit, stale, clean_build)."""
+    import shutil
+
+    d = workroot / f"cycle-{tag}"
+    sb = cli.Sandbox(d)
+    present = sorted("../" + s for s in fam.sources)
+    for s in present:
+        sb.write(src_rel(s), SRC_TEXT[src_rel(s)])
+    problems = []
+    try:
+        for i, opt in enumerate(opts_seq):
+            runs = [None]
+            if fault_at is not None and fault_at[0] == i:
+                runs = [{"op": "Fail", "out": fault_at[1]}, None]
+            for fault in runs:
+                sb.tick()
+                env = _fault_env(fault) if fault else {}
+                rc, out = sb.run(fam.args([src_rel(s) for s in present], opt), env=env)
+                if fault:
+                    if rc == 0:
+                        problems.append({"kind": "exit", "detail": f"step {i} ({opt}): a failing step at {fault['out']} yet exit 0"})
+                    continue
+                if rc != 0:
+                    problems.append({"kind": "exit", "detail": f"step {i} ({opt}): exit {rc}", "log": out[-500:]})
+                    return problems
+                crc, csha, clog = clean_build_sha(fam, present, opt, {}, workroot)
+                if crc != 0:
+                    problems.append({"kind": "clean_build", "detail": f"clean build failed: {clog}"})
+                    return problems
+                if sb.sha("Font.ttf") != csha:
+                    problems.append({"kind": "stale", "detail": f"after the option sequence {list(opts_seq[: i + 1])}"
+                                                                f"{' with a failed run before the last' if fault_at and fault_at[0] == i else ''}: exit 0 but the font differs from a clean build with {opt}"})
+    finally:
+        shutil.rmtree(d, ignore_errors=True)
+    return problems
